@@ -14,7 +14,6 @@ use crate::empty_ss;
 
 use super::goal::Goal;
 use super::logic_var::*;
-use super::s_linked_list::*;
 use super::built_in_functions::*;
 use super::built_in_predicates::*;
 use super::substitution_set::*;
@@ -452,18 +451,15 @@ impl Unifiable {
                 }
                 Unifiable::SComplex(new_terms)
             },
-            Unifiable::SLinkedList{term: _, next: _, count: _, tail_var: _} => {
-                let mut this_list = self;
-                let mut new_terms = vec![];
-                let mut vbar = false;  // vertical bar |
-                while let Unifiable::SLinkedList{term: t, next: n,
-                                     count: c, tail_var: tf} = this_list {
-                    new_terms.push(t.recreate_variables(recreated_vars));
-                    if c == 1 && tf { vbar = true; }
-                    this_list = *n;
-                    if this_list == Unifiable::Nil { break; }
-                }
-                return make_linked_list(vbar, new_terms);
+            Unifiable::SLinkedList{term: t, next: n, count: c, tail_var: tf} => {
+                // Recreate node by node, so that the shape of the list
+                // (empty list, nested lists, tail variable) is preserved.
+                let new_term = t.recreate_variables(recreated_vars);
+                let new_next = n.recreate_variables(recreated_vars);
+                Unifiable::SLinkedList{term: Box::new(new_term),
+                                       next: Box::new(new_next),
+                                       count: c,
+                                       tail_var: tf}
             },
             Unifiable::SFunction{name, terms} => {
                 let mut new_terms: Vec<Unifiable> = vec![];
